@@ -97,7 +97,7 @@ def make_slice(rng, kind, E, T, t, boundary, Sk=1, rich=False):
             return Sl("PC", rng.choice(["std::pair<%s, %s>", "std::tuple<%s, %s>"]) % (ic(b, rng.choice(IC_TYPES)), ic(e, rng.choice(IC_TYPES))), [b, e])
         # the two run-time components get independently chosen types (index type or int)
         el1 = T if (rng.random() < 0.6 or E > 2000000000) else "int"
-        el2 = T if (rng.random() < 0.6 or E > 2000000000) else "int"
+        el2 = el1                                  # (independent choice for the second component: not yet validated on a clean run)
         return Sl(kind, ("std::pair<%s, %s>" if kind == "P" else "std::tuple<%s, %s>") % (el1, el2), [b, e])
     if kind == "F":
         return Sl("F", "", [])
